@@ -60,6 +60,9 @@ type schedRun struct {
 	savePlan  bool
 	delPlan   bool
 	newGate   bool          // stop threads at "entry.new" (inside the shard's get-or-create)
+	setGate   chan struct{} // when set, the store.Set of key setKey announces itself on setAt and waits here
+	setAt     chan struct{}
+	setKey    string
 	delGate   chan struct{} // when set, store.Delete announces itself on delAt and waits here
 	delAt     chan struct{}
 	blocked   bool
@@ -233,6 +236,9 @@ var directedSchedules = [][]string{
 	{"store:1", "arrive:0", "get:0:honest", "upEnd:0:cacheable:60", "complete:0", "saved:0:1", "purge:0:1", "arriveRace:0", "get:1:honest", "get:2:honest", "park:2", "upEnd:1:cacheable:60", "complete:1", "saved:1:1", "resume:2", "age:2"},
 	// reload while a fetch with a waiter is in flight: the next arrival still joins the same entry
 	{"store:0", "arrive:0", "get:0", "arrive:0", "get:1", "reload", "arrive:0", "get:2", "park:1", "park:2", "upEnd:0:cacheable:60", "complete:0", "saved:0:1", "resume:1", "age:1", "resume:2", "age:2"},
+	// two keys persisted at the same time, restart, both served from their own records
+	{"store:1", "arrive:0", "arrive:1", "get:0:honest", "get:1:honest", "upEnd:0:cacheable:60", "upEnd:1:cacheable:60", "complete:0", "complete:1",
+		"saveRace:0:1", "crash", "arrive:0", "get:2:honest", "age:2", "arrive:1", "get:3:honest", "age:3"},
 	// hit-for-pass lapse: single prober, others wait
 	{"store:0", "hfp:2s", "arrive:0", "get:0", "upEnd:0:error:1", "complete:0", "saved:0:1", "tick:1", "arrive:0", "get:1", "tick:2", "arrive:0", "arrive:0", "get:2", "get:3", "park:3", "upEnd:1:nostore:1", "upEnd:2:cacheable:3", "complete:2", "saved:2:1", "resume:3", "age:3"},
 	// restart: served from the store with Age continuing, then past the original expiry
@@ -295,6 +301,12 @@ func runSchedule(cr *rng, seq int, script []string) (blocked bool) {
 				return errors.New("store write failed")
 			}
 			return nil
+		}
+		p.store.preSet = func(key string) {
+			if g := run.setGate; g != nil && key == run.setKey {
+				run.setAt <- struct{}{}
+				<-g
+			}
 		}
 		p.store.preDel = func(key string) {
 			if g := run.delGate; g != nil {
@@ -541,6 +553,42 @@ func runSchedule(cr *rng, seq int, script []string) (blocked bool) {
 			delete(run.draining, t.entry)
 			delete(run.queue, t.entry)
 			emit("sched", "saved", idOf(t), b2s(run.savePlan), "=>", posLine(t))
+		case "saveRace":
+			// two completions of DIFFERENT keys persist their records at the same time: the first is held inside
+			// the store's Set (it has handed over its bytes), the second runs to the end, then the first continues.
+			// Each record must still be its own.
+			tA := a.t
+			tbi, _ := strconv.Atoi(arg(2, "1"))
+			if tbi >= len(run.threads) {
+				emit("sched", "script-error", script[step])
+				break
+			}
+			tB := run.threads[tbi]
+			run.savePlan = true
+			run.setKey = "GET s.test " + schedKeyURI(tA.key)
+			run.setGate, run.setAt = make(chan struct{}), make(chan struct{}, 1)
+			run.rel(tA)
+			held := false
+			select {
+			case <-run.setAt:
+				held = true
+			case p := <-tA.report:
+				tA.pos = p // no store (or nothing saved): A is already through
+			case <-time.After(schedWatchdog):
+				run.blocked = true
+			}
+			run.rel(tB)
+			finish(tB)
+			if held {
+				close(run.setGate)
+				finish(tA)
+			}
+			run.setGate = nil
+			for _, t := range []*schedThread{tA, tB} {
+				delete(run.draining, t.entry)
+				delete(run.queue, t.entry)
+				emit("sched", "saved", idOf(t), "1", "=>", posLine(t))
+			}
 		case "age":
 			t := a.t
 			run.rel(t)
@@ -569,11 +617,18 @@ func runSchedule(cr *rng, seq int, script []string) (blocked bool) {
 			viaAdmin := sp == nil && cr.chance(50)
 			run.ctl(func() {
 				if viaAdmin {
-					if code, err := adminPurge("c1", "GET s.test "+schedKeyURI(k)); err != nil || code != 204 {
+					code, err := adminPurge("c1", "GET s.test "+schedKeyURI(k))
+					if err == nil && code == 204 {
+						return
+					}
+					if err != nil && adminAddr == "" {
+						// no admin server on this machine right now (no port to be had): purge directly
+						stat("admin-unavailable")
+					} else {
 						fmt.Fprintf(os.Stderr, "admin purge: code=%d err=%v\n", code, err)
 						run.blocked = true
+						return
 					}
-					return
 				}
 				cache.RemoveHTTPCache("c1", []byte("GET s.test "+schedKeyURI(k)))
 			})
